@@ -828,3 +828,134 @@ Section IntKernels.
   Lemma ki_from_bool_ok : kern_ok ki_from_bool.
   Proof. apply (K1_ok SB SZ (ke_convert_of_bool sb) (lowered_convert_of_bool sb)); try kuses_tac; try root_tac; try solve [kok_tac]; try reflexivity. Qed.
 End IntKernels.
+
+Definition kb_and := K2 SB SB SB ke_bool_and jax_bool_and tt2.
+Definition kb_or := K2 SB SB SB ke_bool_or jax_bool_or tt2.
+Definition kb_xor := K2 SB SB SB ke_bool_xor jax_bool_xor tt2.
+Definition kb_not := K1 SB SB ke_bool_not jax_bool_not tt1.
+Definition kb_eq := K2 SB SB SB ke_eq_b jax_eq_b tt2.
+Definition kb_ne := K2 SB SB SB ke_ne_b jax_ne_b tt2.
+Definition kb_select_n := K3 SB SB SB SB ke_select_n_b jax_select_n_b tt3.
+Definition kb_where := K3 SB SB SB SB ke_where_b jax_where_b tt3.
+Definition kq_floor := K1 SQ SZ ke_floor jax_floor frac_okb.
+Definition kq_ceil := K1 SQ SZ ke_ceil jax_ceil frac_okb.
+Definition kq_round_even := K1 SQ SZ ke_round jax_round_even frac_okb.
+Definition kq_round_away := K1 SQ SZ ke_round_away jax_round_away frac_okb.
+Ltac kokb_tac := repeat (cbn; repeat split; auto; try lia).
+Lemma kb_and_ok : kern_ok kb_and. Proof. apply (K2_ok SB SB SB ke_bool_and lowered_bool_and); try kuses_tac; try exact I; try solve [kokb_tac]; try reflexivity; try (intros; apply bool_and_correct). Qed.
+Lemma kb_or_ok : kern_ok kb_or. Proof. apply (K2_ok SB SB SB ke_bool_or lowered_bool_or); try kuses_tac; try exact I; try solve [kokb_tac]; try reflexivity; try (intros; apply bool_or_correct). Qed.
+Lemma kb_xor_ok : kern_ok kb_xor. Proof. apply (K2_ok SB SB SB ke_bool_xor lowered_bool_xor); try kuses_tac; try exact I; try solve [kokb_tac]; try reflexivity; try (intros; apply bool_xor_correct). Qed.
+Lemma kb_not_ok : kern_ok kb_not. Proof. apply (K1_ok SB SB ke_bool_not lowered_bool_not); try kuses_tac; try exact I; try solve [kokb_tac]; try reflexivity; try (intros; apply bool_not_correct). Qed.
+Lemma kb_eq_ok : kern_ok kb_eq. Proof. apply (K2_ok SB SB SB ke_eq_b lowered_eq_b); try kuses_tac; try exact I; try solve [kokb_tac]; try reflexivity; try (intros; apply eq_b_correct). Qed.
+Lemma kb_ne_ok : kern_ok kb_ne. Proof. apply (K2_ok SB SB SB ke_ne_b lowered_ne_b); try kuses_tac; try exact I; try solve [kokb_tac]; try reflexivity; try (intros; apply ne_b_correct). Qed.
+Lemma kb_select_n_ok : kern_ok kb_select_n. Proof. apply (K3_ok SB SB SB SB ke_select_n_b lowered_select_n_b); try kuses_tac; try exact I; try solve [kokb_tac]; try reflexivity. Qed.
+Lemma kb_where_ok : kern_ok kb_where. Proof. apply (K3_ok SB SB SB SB ke_where_b lowered_where_b); try kuses_tac; try exact I; try solve [kokb_tac]; try reflexivity. Qed.
+Lemma kq_floor_ok : kern_ok kq_floor. Proof. apply (K1_ok SQ SZ ke_floor lowered_floor); try kuses_tac; try exact I; try solve [kokb_tac]; try reflexivity. Qed.
+Lemma kq_ceil_ok : kern_ok kq_ceil.
+Proof. apply (K1_ok SQ SZ ke_ceil lowered_ceil); try kuses_tac; try exact I; try solve [kokb_tac]; try reflexivity. intros q H. apply ceil_correct. now apply frac_okb_spec. Qed.
+Lemma kq_round_even_ok : kern_ok kq_round_even.
+Proof. apply (K1_ok SQ SZ ke_round lowered_round); try kuses_tac; try exact I; try solve [kokb_tac]; try reflexivity. intros q H. apply round_even_correct. now apply frac_okb_spec. Qed.
+Lemma kq_round_away_ok : kern_ok kq_round_away.
+Proof. apply (K1_ok SQ SZ ke_round_away lowered_round_away); try kuses_tac; try exact I; try solve [kokb_tac]; try reflexivity. intros q H. apply round_away_correct. now apply frac_okb_spec. Qed.
+
+(* the table: primitive name @ element type -> kernel (the element type of the operands selects the variant, as the
+   plugins do from the avals; static parameters are part of the name) *)
+Local Open Scope string_scope.
+Definition int_entries (nm : string) (sb : ity) : list (string * kern) :=
+  [("add:" ++ nm, ki_add sb); ("sub:" ++ nm, ki_sub sb); ("mul:" ++ nm, ki_mul sb); ("neg:" ++ nm, ki_neg sb);
+   ("sign:" ++ nm, ki_sign sb); ("div:" ++ nm, ki_div sb); ("rem:" ++ nm, ki_rem sb); ("max:" ++ nm, ki_max sb);
+   ("min:" ++ nm, ki_min sb); ("clamp:" ++ nm, ki_clamp); ("clip:" ++ nm, ki_clip); ("select_n:" ++ nm, ki_select_n);
+   ("where:" ++ nm, ki_where); ("and:" ++ nm, ki_and sb); ("or:" ++ nm, ki_or sb); ("xor:" ++ nm, ki_xor sb);
+   ("not:" ++ nm, ki_not sb); ("shift_left:" ++ nm, ki_shl sb); ("shift_right_logical:" ++ nm, ki_srl sb);
+   ("shift_right_arithmetic:" ++ nm, ki_sra sb); ("eq:" ++ nm, ki_eq); ("ne:" ++ nm, ki_ne); ("lt:" ++ nm, ki_lt);
+   ("le:" ++ nm, ki_le); ("gt:" ++ nm, ki_gt); ("ge:" ++ nm, ki_ge);
+   ("integer_pow0:" ++ nm, ki_ipow sb 0); ("integer_pow1:" ++ nm, ki_ipow sb 1); ("integer_pow2:" ++ nm, ki_ipow sb 2);
+   ("integer_pow3:" ++ nm, ki_ipow sb 3); ("integer_pow4:" ++ nm, ki_ipow sb 4);
+   ("convert_element_type>" ++ nm, ki_convert_to sb); ("convert_element_type:" ++ nm ++ ">bool", ki_to_bool);
+   ("convert_element_type:bool>" ++ nm, ki_from_bool sb)].
+Definition signed_entries (nm : string) (sb : ity) : list (string * kern) := [("abs:" ++ nm, ki_abs sb)].
+Definition other_entries : list (string * kern) :=
+  [("and:bool", kb_and); ("or:bool", kb_or); ("xor:bool", kb_xor); ("not:bool", kb_not); ("eq:bool", kb_eq); ("ne:bool", kb_ne);
+   ("select_n:bool", kb_select_n); ("where:bool", kb_where);
+   ("floor:float", kq_floor); ("ceil:float", kq_ceil); ("round[TO_NEAREST_EVEN]:float", kq_round_even);
+   ("round[AWAY_FROM_ZERO]:float", kq_round_away)].
+Definition std_named : list (string * ity) :=
+  [("int8", I8); ("int16", I16); ("int32", I32); ("int64", I64); ("uint8", U8); ("uint16", U16); ("uint32", U32); ("uint64", U64)].
+Definition signed_named : list (string * ity) := [("int8", I8); ("int16", I16); ("int32", I32); ("int64", I64)].
+Definition exact_entries : list (string * kern) :=
+  flat_map (fun p => int_entries (fst p) (snd p)) std_named ++ flat_map (fun p => signed_entries (fst p) (snd p)) signed_named
+  ++ other_entries.
+Local Close Scope string_scope.
+Fixpoint lookup_k (p : string) (l : list (string * kern)) : option kern :=
+  match l with [] => None | (q, k) :: r => if String.eqb q p then Some k else lookup_k p r end.
+Definition exact_table : ktable := fun p => lookup_k p exact_entries.
+
+Lemma lookup_k_In p l k : lookup_k p l = Some k -> In k (map snd l).
+Proof.
+  induction l as [|[q k'] l IH]; simpl; intro H; [discriminate|].
+  destruct (String.eqb q p); [injection H as <-; now left | right; auto].
+Qed.
+Lemma int_entries_ok nm sb : 0 < snd sb -> Forall kern_ok (map snd (int_entries nm sb)).
+Proof.
+  intro Hb. unfold int_entries. cbn [map snd].
+  repeat (constructor; [first [ apply ki_add_ok | apply ki_sub_ok | apply ki_mul_ok | apply ki_neg_ok | apply ki_sign_ok
+    | apply ki_div_ok | apply ki_rem_ok | apply ki_max_ok | apply ki_min_ok | apply ki_clamp_ok | apply ki_clip_ok
+    | apply ki_select_n_ok | apply ki_where_ok | apply ki_and_ok | apply ki_or_ok | apply ki_xor_ok | apply ki_not_ok
+    | apply ki_shl_ok | apply ki_srl_ok | apply ki_sra_ok | apply ki_eq_ok | apply ki_ne_ok | apply ki_lt_ok | apply ki_le_ok
+    | apply ki_gt_ok | apply ki_ge_ok | apply ki_ipow_ok | apply ki_convert_to_ok | apply ki_to_bool_ok | apply ki_from_bool_ok ];
+    exact Hb |]).
+  constructor.
+Qed.
+Theorem exact_table_ok : forall p k, exact_table p = Some k -> kern_ok k.
+Proof.
+  intros p k H. apply lookup_k_In in H. unfold exact_entries in H. rewrite !map_app in H.
+  apply in_app_or in H as [H|H]; [|apply in_app_or in H as [H|H]].
+  - apply in_map_iff in H as ([q k'] & <- & H). apply in_flat_map in H as ([nm sb] & Hs & H).
+    assert (Hb : 0 < snd sb) by (simpl in Hs; repeat (destruct Hs as [Hs|Hs]; [inversion Hs; simpl; lia|]); contradiction).
+    pose proof (int_entries_ok nm sb Hb) as F. rewrite Forall_forall in F. apply F. apply in_map_iff. exists (q, k'). auto.
+  - apply in_map_iff in H as ([q k'] & <- & H). apply in_flat_map in H as ([nm sb] & Hs & H).
+    assert (Hb : 0 < snd sb) by (simpl in Hs; repeat (destruct Hs as [Hs|Hs]; [inversion Hs; simpl; lia|]); contradiction).
+    simpl in H. destruct H as [H|[]]. inversion H; subst. now apply ki_abs_ok.
+  - simpl in H.
+    repeat (destruct H as [<-|H]; [first [apply kb_and_ok | apply kb_or_ok | apply kb_xor_ok | apply kb_not_ok | apply kb_eq_ok
+      | apply kb_ne_ok | apply kb_select_n_ok | apply kb_where_ok | apply kq_floor_ok | apply kq_ceil_ok | apply kq_round_even_ok
+      | apply kq_round_away_ok]|]).
+    contradiction.
+Qed.
+
+(* THE PROGRAM-LEVEL THEOREM for the table of exact kernels *)
+Theorem exact_table_fragment_correct lit :
+  forall jp s s', slower_jaxpr (kreg exact_table) s jp = Ok s' ->
+  forall r g r', related cten s r g -> jeval cten (kpsem exact_table) lit jp r = Some r' ->
+  exists new g', s_nodes s' = s_nodes s ++ new /\ eval cten (kgsem lit) new g = Some g' /\
+                 genv_le cten g g' /\ related cten s' r' g'.
+Proof. exact (exact_fragment_correct exact_table lit exact_table_ok). Qed.
+
+(* ---------------------------------------------------------------- non-vacuity: a broadcasting four-equation program
+   where(x < y, x * 3 - y, y)  with x : int32[2,3], y : int32[3], the literal 3 *)
+Local Open Scope string_scope.
+Definition ex_lit3 : cten := tcanon (tscalar (VZ 3)).
+Definition ex_prog : jaxpr :=
+  ([mkEqn "lt:int32" [IVar 0; IVar 1] [Some 2]; mkEqn "mul:int32" [IVar 0; ILit] [Some 3];
+    mkEqn "sub:int32" [IVar 3; IVar 1] [Some 4]; mkEqn "select_n:int32" [IVar 2; IVar 1; IVar 4] [Some 5]])%nat.
+Definition ex_s0 : sctx := mkS [(1, 1); (0, 0)]%nat [0; 1]%nat [].
+Definition ex_cx : cten := mkC [2; 3]%nat (map VZ [1; 5; -7; 2147483647; 0; 4]).
+Definition ex_cy : cten := mkC [3]%nat (map VZ [2; 5; -9]).
+Definition ex_g0 : env cten := fun n => match n with 0%nat => Some ex_cx | 1%nat => Some ex_cy | _ => None end.
+Definition ex_r0 : jenv cten := fun v => match v with 0%nat => Some ex_cx | 1%nat => Some ex_cy | _ => None end.
+Example ex_prog_lowers :
+  match slower_jaxpr (kreg exact_table) ex_s0 ex_prog with
+  | Ok s' => map (fun n => (n_op n, n_ins n, n_outs n)) (s_nodes s')
+  | Err _ => []
+  end = [("Less", [0; 1], [2]); ("Literal", [], [3]); ("Mul", [0; 3], [4]); ("Sub", [4; 1], [5]); ("Where", [2; 5; 1], [6])]%nat.
+Proof. vm_compute. reflexivity. Qed.
+Example ex_prog_jax : match jeval cten (kpsem exact_table) ex_lit3 ex_prog ex_r0 with Some r' => r' 5%nat | None => None end
+  = Some (mkC [2; 3]%nat (map VZ [1; 5; -9; 2; -5; -9])).
+Proof. vm_compute. reflexivity. Qed.
+Example ex_prog_onnx :
+  match slower_jaxpr (kreg exact_table) ex_s0 ex_prog with
+  | Ok s' => match eval cten (kgsem ex_lit3) (s_nodes s') ex_g0 with Some g' => g' 6%nat | None => None end
+  | Err _ => None
+  end = Some (mkC [2; 3]%nat (map VZ [1; 5; -9; 2; -5; -9])).
+Proof. vm_compute. reflexivity. Qed.
+Local Close Scope string_scope.
